@@ -128,6 +128,21 @@ def invariant(t, seen, what, phase=0):
             bad("repr", "repr %r, table is %d x %d with %d non-zero" %
                 (r, n, m, len(nz)))
 
+    def g_nzc():
+        for axis, want_b, want_s in (
+                ("sample", (D != 0).sum(axis=0), D.sum(axis=0)),
+                ("observation", (D != 0).sum(axis=1), D.sum(axis=1)),
+                ("whole", np.array([(D != 0).sum()]), np.array([D.sum()]))):
+            got = np.asarray(t.nonzero_counts(axis)).ravel().tolist()
+            if got != want_b.astype(float).tolist():
+                bad("nonzero_counts", "nonzero_counts(%s)=%r, matrix %r" %
+                    (axis, got, want_b.tolist()))
+            got = np.asarray(t.nonzero_counts(axis, binary=False)).ravel()
+            if len(got) != len(want_s) or not np.allclose(
+                    got, want_s, rtol=1e-12, atol=0.0):
+                bad("nonzero_counts", "nonzero_counts(%s, binary=False)=%r,"
+                    " matrix %r" % (axis, got.tolist(), want_s.tolist()))
+
     def g_data(axis):
         def f():
             ids = obs if axis == "observation" else samp
@@ -222,7 +237,8 @@ def invariant(t, seen, what, phase=0):
                                                       want.tolist()))
 
     groups = [g_counts, g_data("observation"), g_nonzero, g_data("sample"),
-              g_sums, g_cells, g_iter("observation"), g_iter("sample")]
+              g_sums, g_cells, g_iter("observation"), g_iter("sample"),
+              g_nzc]
     k = phase % len(groups)
     for g in groups[k:] + groups[:k]:
         g()
